@@ -9,7 +9,8 @@
    Safety theorems hold for both (forall fx). Liveness under lag holds for tick_fixed and is REFUTED for tick
    (finding F3: C15_starvation_refuted_current). *)
 From Coq Require Import NArith ZArith List Bool.
-From Verif Require Import Model.Oracle Model.C15Cases Model.C15Reorg Proofs.OracleProofs Proofs.OracleReorgProofs.
+From Verif Require Import Base.GoNum Model.Oracle Model.C15Cases Model.C15Reorg Proofs.OracleProofs Proofs.OracleReorgProofs.
+From Verif Require Gen.GenOracle Proofs.GenAgreeOracle.
 Import ListNotations.
 Open Scope N_scope.
 
@@ -157,6 +158,27 @@ Proof. exact run_r_const. Qed.
 Theorem C15_sel_all : forall pool, sel pool (seq 0 (length pool)) = pool.
 Proof. exact sel_all. Qed.
 
+(* ---- the tick GENERATED from aggoracle/oracle.go on every run is the model's tick ---- *)
+
+(* processLatestGER (with getLastFinalizedGER), translated by tools/go2coq, run against the model's dependencies: the value of
+   blockNumToFetch after the tick and the class of the error returned are those of tick_fixed, for every state of the loop
+   variable, all dependencies and every value of the panic parameter (l1infotreesync.ErrBlockNotProcessed is the class
+   GoNum.ENotFound of that file, any other error EFail) *)
+Theorem C15_generated_tick_is_model : forall d panicv target,
+  GenAgreeOracle.gen_tick d panicv target =
+  (GenAgreeOracle.class_of (snd (tick_fixed target d)), fst (tick_fixed target d)).
+Proof. exact GenAgreeOracle.tick_agree. Qed.
+
+(* ... and it calls InjectGER exactly when the model injects, with the model's root: against a sender that refuses exactly
+   the root g0 it fails iff the model's action is AInject g0 *)
+Theorem C15_generated_tick_consults_inject : forall d panicv target g0, d_inject_err d = false ->
+  GenAgreeOracle.gen_tick_refusing d panicv g0 target =
+  (match snd (tick_fixed target d) with
+   | AInject g => if g =? g0 then EFail else EOK
+   | a => GenAgreeOracle.class_of a
+   end, fst (tick_fixed target d)).
+Proof. exact GenAgreeOracle.tick_consults_inject. Qed.
+
 (* ---- non-vacuity ---- *)
 
 Definition ex_hist : list row := [(2, 102); (4, 104); (4, 105); (9, 109)].
@@ -231,6 +253,15 @@ Proof.
   apply Forall_cons; [apply sorted_histb_ok; vm_compute; reflexivity|]. apply Forall_nil.
 Qed.
 
+(* the generated tick on the dependencies of C15_ex_inject: it returns nil and forgets the block; against a sender that refuses
+   root 105 it fails, against one that refuses 104 it does not *)
+Example C15_ex_generated_tick :
+  let d := mkdeps ex_hist [102] (ex_tin 5 20) in
+  GenAgreeOracle.gen_tick d (0, 0, EFail) 0 = (EOK, 0) /\
+  fst (GenAgreeOracle.gen_tick_refusing d (0, 0, EFail) 105 0) = EFail /\
+  fst (GenAgreeOracle.gen_tick_refusing d (0, 0, EFail) 104 0) = EOK.
+Proof. repeat split; vm_compute; reflexivity. Qed.
+
 (* a failing dependency: hypotheses of C15_errors_inject_nothing met, and the tick indeed reports the failure *)
 Example C15_ex_error :
   let d := mkdeps ex_hist [] {| i_F := 5; i_l1err := false; i_lpb := 20; i_infoerr := true; i_l2add := [];
@@ -256,3 +287,5 @@ Print Assumptions C15_injected_is_current_latest_run_reorg.
 Print Assumptions C15_no_duplicate_injection_run_reorg.
 Print Assumptions C15_reorg_runs_generalise.
 Print Assumptions C15_sel_all.
+Print Assumptions C15_generated_tick_is_model.
+Print Assumptions C15_generated_tick_consults_inject.
